@@ -264,11 +264,13 @@ func (m *c06Model) explore(cur string, depth int, seen map[string]bool, path []s
 					// A wildcard entry whose answer is the queried name.
 					m.zone("wildcard-cname-into-own-pattern", depth, path)
 				} else {
+					m.tag("cycle:through-queried-name")
 					m.zone("cname-cycle", depth, path)
 				}
 			case c06IsWild(d.pat) && d.ans == cur:
 				m.zone("wildcard-cname-into-own-pattern", depth, path)
 			case seen[d.ans]:
+				m.tag("cycle:not-containing-queried-name")
 				m.zone("cname-cycle", depth, path)
 			default:
 				s2 := make(map[string]bool, len(seen)+1)
